@@ -85,6 +85,12 @@ def check(ctx):
                                'established for a path that is %s'
                                % (cmd, e.data['kind'], short(path_role(e), 100),
                                   '/'.join(sorted(cls[e.id][0]))))
+        for e in effs:
+            if e.data.get('errors_ignored') and 'info' not in cls[e.id][0]:
+                ctx.ob(rule, 'a payload removal that fails does so loudly', False, node=e,
+                       message='%s: %s ignores its errors: a payload that could not be '
+                               'removed is taken for removed, its .trashinfo is deleted '
+                               'after it and nothing is reported' % (cmd, e.data['prim']))
         info_deletes = [e for e in effs if e.data['kind'] == 'DELETE' and
                         cls[e.id][0] == {'info'}]
         ctx.require(info_deletes or ctx.findings, '%s: no DELETE of an info/*.trashinfo entry found in '
@@ -107,6 +113,22 @@ def check(ctx):
                            'without info); path: %s' % (cmd, witness),
                    sample={'info': short(d.data['roles']['path'], 120),
                            'payload_handlers': [g.n(h).loc() for h in handlers][:4]})
+            # ... and not merely *attempted*: the .trashinfo must not be deleted on a way
+            # on which every payload removal was left exceptionally (try/finally, a
+            # handler that goes on): blocking the normal exits of the payload handlers
+            # must cut the .trashinfo DELETE off
+            if cmd == 'rm' and ok and handlers and d.id not in handlers:
+                normal_out = set()
+                for h in handlers:
+                    normal_out.update(normal_successors(b, h))
+                loud = d.id not in g.reachable_from(
+                    [g.entry], blocked=normal_out | set(absent))
+                ctx.ob(rule, 'the .trashinfo is deleted only after a payload removal that '
+                             'completed', loud, node=d,
+                       message='%s: the .trashinfo is deleted although the removal of its '
+                               'payload was interrupted or failed (finally / handler that '
+                               'goes on): the half-removed payload is stranded without info'
+                               % cmd)
             # the info DELETE must not follow a *failed* MOVE
             for h in handlers:
                 hn = g.n(h)
